@@ -251,6 +251,29 @@ def run(tier):
     insts = sz_instances(tier)
     with ProcessPoolExecutor(max_workers=12) as ex:
         results = list(ex.map(_one, [(m, tier, common.seed()) for m in insts], chunksize=1))
+    # the target draw at quantiles where scipy's discrete quantile search gives up (a known finding of C11): whatever happens then - an exception or a
+    # molecule - is a function of the supplied generator, not of the module generator's state
+    g = common.import_repo()
+    from .rng import ScriptedRNG
+    n_hard = 0
+    for text, us in (("C[>]{[>][<]CC[>][<]}|schulz_zimm(200, 150)|[<]O", (0.3392, 0.3442, 0.5)), ("C[>]{[>][<]CC[>][<]}|schulz_zimm(800, 400)|[<]O", (0.3392, 0.61, 0.5))):
+        obj = g.Molecule(text)
+        sag = obj.gen_stochastic_atom_graph(True)
+        for u in us:
+            outs = []
+            for k in range(3):
+                for _ in range(k * 7):
+                    g._GLOBAL_RNG.random()          # another state of the module generator each time
+                try:
+                    ag = g.AtomGraph(sag, rng=ScriptedRNG([], qgrid={"uniform": [u]}, min_p=A.MIN_P))
+                    ag.generate()
+                    outs.append(("mol", ag_project(ag)["smiles"]))
+                except Exception as exc:
+                    outs.append(("raises", type(exc).__name__))
+            n_hard += 1
+            if len(set(outs)) != 1:
+                v.violation("C18:equal-generators-different-outcomes", f"{text}: the same scripted generator (target quantile {u}) gives {sorted(set(outs))} under different states "
+                                                                       f"of the module generator", {"instance": text, "quantile": u})
     states = n_mols = n_paths = 0
     samples = []
     mach = {"instances_with_machine": 0, "instances_bisimilar_on_explored_tree": 0, "tree_nodes": 0, "tree_nodes_explained": 0,
